@@ -20,11 +20,11 @@ CLS = 'bridgepoint.oal:OALParser'
 
 
 def run(ctx):
-    lexrules.time_rule(ctx, 'C13-TIME', CLS, floor=30)
-    total(ctx)
-    lexrules.endpos_rule(ctx, 'C13-ENDPOS', CLS, floor=30)
-    lexrules.lineno_rule(ctx, 'C13-LINENO', CLS, floor=30)
-    track(ctx)
+    ctx.guard(lexrules.time_rule, ctx, 'C13-TIME', CLS, floor=30)
+    ctx.guard(total, ctx)
+    ctx.guard(lexrules.endpos_rule, ctx, 'C13-ENDPOS', CLS, floor=30)
+    ctx.guard(lexrules.lineno_rule, ctx, 'C13-LINENO', CLS, floor=30)
+    ctx.guard(track, ctx)
     ctx.assume('ply.yacc (LALR, linear time) and ply.lex (one master regex per input position) behave as documented; '
                'yacc tracking=1 propagates lexpos/endlexpos/lineno of the first/last symbol to non-terminals')
     ctx.assume('positions of nodes built by empty productions are not decided')
@@ -46,6 +46,7 @@ def total(ctx):
     ok = paths and all(p[-1][0].kind == 'raise' for p in paths)
     r.check(ok, 'p_error raises on every path (%d paths)' % len(paths), g.p_error, construct=CLS + '.p_error',
             key='p_error-raises', msg='p_error can return normally: ply would resynchronise and return a tree for malformed text')
+    _none_guard(r, g.p_error, CLS + '.p_error')
     for n in ast.walk(g.p_error):
         if isinstance(n, ast.Raise):
             r.check(exception_class_name(n) == 'ParseException', 'p_error raises ParseException', n,
@@ -92,6 +93,28 @@ def total(ctx):
     r.check(any(isinstance(n, ast.Call) and call_attr(n) == 'text_input' for n in ast.walk(pf)),
             'parse() delegates to OALParser.text_input', pf, construct='bridgepoint.oal:parse', key='delegate',
             msg='parse() no longer calls text_input')
+
+
+def _none_guard(r, fn, qual):
+    '''ply calls p_error(None) at end of input: every dereference of the parameter must sit inside `if p:`'''
+    p = param_names(fn)[0]
+    bad = []
+    for n in ast.walk(fn):
+        if isinstance(n, ast.Attribute) and isinstance(n.value, ast.Name) and n.value.id == p:
+            cur = n
+            guarded = False
+            while cur is not fn:
+                par = cur._parent
+                if isinstance(par, ast.If) and cur in par.body and src(par.test) in (p, '%s is not None' % p):
+                    guarded = True
+                if isinstance(par, ast.If) and cur in par.orelse and src(par.test) in ('not %s' % p, '%s is None' % p):
+                    guarded = True
+                cur = par
+            if not guarded:
+                bad.append(n)
+    r.check(not bad, '%s dereferences its token only where it is known not to be None' % qual.split('.')[-1], bad[0] if bad else fn, construct=qual,
+            key='none-deref', msg='%s: `%s` is evaluated outside `if %s:`; ply passes None at end of input (truncated text), so an '
+                                  'AttributeError escapes instead of the parse exception' % (qual, src(bad[0]) if bad else '', p))
 
 
 def _node_classes(repo):
